@@ -652,7 +652,7 @@ def main():
     tier = a.tier if a.tier in ("quick", "thorough") else "quick"
     if a.prop == "replay":
         return replay(a.arg, a.repo)
-    props = ALL_PROPS if a.prop == "all" else [a.prop]
+    props = [p for p in ALL_PROPS if p in claimed_props()] if a.prop == "all" else [a.prop]
     t0 = time.time()
     sess = Session(a.repo, tier, use_cache=not a.no_cache)
     rc = 0
